@@ -142,7 +142,7 @@ def finish(prop, tier, rep, t0, explanation, not_decided, engines):
         else:
             unexpected.append(v)
     seed = int(os.environ.get("VERIF_SEED", "0") or 0)
-    ev_dir = os.path.join(VERIF_DIR, "evidence")
+    ev_dir = os.environ.get("NMFU_EVIDENCE_DIR") or os.path.join(VERIF_DIR, "evidence")
     os.makedirs(ev_dir, exist_ok=True)
     cov = {
         "explanation": explanation,
